@@ -170,6 +170,8 @@ M.contract(P_SDS + ':construct_at', params=dict(directory_root=Str),
                '(call sites: these events happen)': (
                    lambda directory_root: happen(construct_at_events(directory_root)), 'effect'),
                'result-has-the-documented-layout': lambda directory_root, result: layout(result, directory_root),
+               'nothing-is-put-into-the-users-tmp': lambda directory_root, trace:
+               not any(below(p, Path(directory_root) / 'tmp') for p in fs_paths(trace)),
            },
            raises_only=())
 
@@ -476,6 +478,8 @@ M.contract(P_EXECUTOR + ':_PartialExecutor._setup_post_sds_environment',
                str(self._phase_tmp_space_factory._root_dir) == str(self._sds.internal_tmp_dir),
                'no-file-system-effect-besides-construction': lambda trace:
                events(trace, *FS_EVENTS) == [trace[0]] + construct_at_events(trace[1][2]),
+               'nothing-is-put-into-the-users-tmp': lambda self, trace:
+               not any(below(p, self._sds.user_tmp_dir) for p in fs_paths(trace)),
            },
            raises_only=())
 
@@ -632,6 +636,9 @@ M.contract(P_ATC + ':ActionToCheckExecutor._do_execute',
                self.exe_atc_and_skip_assertions is None or events(trace, *FS_EVENTS) == [], 'check-only'),
                'nothing-outside-result-is-touched': (lambda self, trace:
                all(below(p, self.tcds.sds.result_dir) for p in fs_paths(trace)), 'check-only'),
+               'nothing-is-put-into-the-users-tmp': (lambda self, trace:
+               not any(below(p, self.tcds.sds.user_tmp_dir) or str(p) == str(self.tcds.sds.user_tmp_dir)
+                       for p in fs_paths(trace)), 'check-only'),
                # ---- the outcome object (C01 uses these two)
                'outcome-registered-iff-exit-code': lambda self, result, old:
                (self._atc_outcome is not None and self._atc_outcome.exit_code == result.exit_code)
@@ -873,6 +880,9 @@ CHDIR_CALL_SITES = {
 }
 
 
+USER_TMP_READERS = ['exactly_lib.tcfs.relativity_root:<module>', 'exactly_lib.tcfs.tcds_symbols:set_at_setup_main']
+
+
 @M.check('frame: os.environ is never written, chdir call sites are the known ones')
 def _frame(ctx):
     scans = _scan_package()
@@ -905,6 +915,9 @@ def _frame(ctx):
                    detail={'users': users('_setup_post_sds_environment')})
     ctx.obligation('_PartialExecutor is instantiated only by executor.execute',
                    users('_PartialExecutor') == [px + 'execute'], 'scan', detail={'users': users('_PartialExecutor')})
+    outside = [u for u in users('user_tmp_dir') if not u.startswith('exactly_lib.tcfs.sds:')]
+    ctx.obligation('SandboxDs.user_tmp_dir is read only where user-given paths and the EXACTLY_TMP symbol are resolved',
+                   outside == USER_TMP_READERS, 'scan', detail={'users': users('user_tmp_dir')})
     exe_uses = [(w, inside) for sc in scans if sc.rel.endswith(os.path.join('partial_execution', 'execution.py'))
                 for (w, inside) in sc.attr_uses.get('execute', [])]
     ctx.obligation('partial_execution.execution.execute calls executor.execute inside `with preserved_cwd()`',
